@@ -100,9 +100,7 @@ impl TxBatchBuilder {
                 return Err(JsError::from_str("Unable to build transaction batch"));
             }
 
-            current_tx_proposal.add_last_ada_to_last_output()?;
-            self.asset_groups
-                .set_min_ada_for_tx(&mut current_tx_proposal)?;
+            self.asset_groups.finalize_tx(&mut current_tx_proposal)?;
             self.tx_proposals.push(current_tx_proposal);
         }
 
